@@ -126,7 +126,7 @@ theorem split_on_loss_other (p : Peer) (hwf : WF p) :
 
 example : WF { cfgGR := true, cfgNotif := false, cfgLL := false, deferral := 0,
                fams := [{ id := 0, mpCfg := true, mpEnabled := true, mpReceived := true }, { id := 1, mpCfg := false, mpEnabled := false }],
-               rib := [⟨0, 1, 1, false, 0, false⟩, ⟨1, 1, 1, false, 0, false⟩] } := by
+               rib := [⟨0, 1, 1, false, 0, false, false⟩, ⟨1, 1, 1, false, 0, false, false⟩] } := by
   intro r hr; simp at hr; rcases hr with rfl | rfl <;> decide
 
 /-! ## 3. lifetime of stale routes without re-establishment -/
@@ -264,9 +264,9 @@ theorem negotiation_forgets (p : Peer) (c : Caps) :
 new one, not stale, and it is the only one. -/
 theorem announce_fresh (p : Peer) (fam key ver nLL : Nat) (noLL : Bool) (he : p.est = true)
     (hf : (famIds p).contains fam = true) :
-    ⟨fam, key, ver, false, nLL, noLL⟩ ∈ (onAnnounce p fam key ver noLL nLL).rib ∧
+    ⟨fam, key, ver, false, nLL, noLL, false⟩ ∈ (onAnnounce p fam key ver noLL nLL).rib ∧
     ∀ r ∈ (onAnnounce p fam key ver noLL nLL).rib, r.fam = fam → r.key = key →
-      r = ⟨fam, key, ver, false, nLL, noLL⟩ := by
+      r = ⟨fam, key, ver, false, nLL, noLL, false⟩ := by
   simp only [onAnnounce, he, hf, Bool.not_true, Bool.false_eq_true, if_false, announce, Bool.or_self]
   constructor
   · simp
@@ -443,11 +443,11 @@ theorem deferral_on_timer (p : Peer) (dt : Nat) (he : p.est = true) (hd : p.down
 /-- No other event touches `LocalRestarting`: announcements, withdrawals, losses and FSM transitions
 below ESTABLISHED leave it as it is. -/
 theorem deferral_only_eor_or_timer (p : Peer) :
-    (∀ f k v n l, (stepRaw p (.ann f k v l n)).localRestarting = p.localRestarting) ∧
+    (∀ f k v n l rj, (stepRaw p (.ann f k v l n rj)).localRestarting = p.localRestarting) ∧
     (∀ f k, (stepRaw p (.wd f k)).localRestarting = p.localRestarting) ∧
     (∀ k, (onLoss p k).localRestarting = p.localRestarting) := by
   refine ⟨?_, ?_, ?_⟩
-  · intro f k v n l; simp only [stepRaw, onAnnounce]; split <;> rfl
+  · intro f k v n l rj; simp only [stepRaw, onAnnounce]; split <;> rfl
   · intro f k; simp only [stepRaw, onWithdraw]; split <;> rfl
   · intro k
     simp only [onLoss, onDown]
@@ -571,6 +571,44 @@ theorem C12_stale_only_after_graceful_loss (p0 : Peer) (hi : Init p0) (hpr0 : p0
   have h1 : (run p0 es).peerRestarting = false := nr_run es p0 hng hpr0
   exact ⟨h1, C12_no_stale_route_once_restart_is_over p0 hi es hok h1⟩
 
+/-! ## 10. the peer object goes away; what is reported -/
+
+/-- DELETE PURGES.  When the neighbour is deleted (DeletePeer, UpdatePeer needing a new OPEN, StopBgp) —
+in whatever phase: established, restart timer running, long-lived period, deferral — nothing of it is
+left: no route, no restart state, no restart or LLGR timer; the neighbour configured again starts clean.
+(`.del` is an event of the histories the theorems of §9 quantify over, so they hold across deletions.) -/
+theorem delete_purges (p : Peer) :
+    (onDelete p).rib = [] ∧ (onDelete p).restartAt = none ∧ (onDelete p).llTimers = [] ∧
+    (onDelete p).peerRestarting = false ∧ (onDelete p).llRun = false ∧ (onDelete p).est = false ∧
+    (onDelete p).enabled = false ∧ (∀ f, received (onDelete p) f = 0 ∧ accepted (onDelete p) f = 0) :=
+  ⟨rfl, rfl, rfl, rfl, rfl, rfl, rfl, fun _ => ⟨rfl, rfl⟩⟩
+
+/-- Marking the routes of a lost session stale changes nothing of what is reported about them: per
+family the number of routes received and the number accepted (not rejected at reception) are the same. -/
+theorem staleAll_keeps_counters (fs : List Nat) (rib : List Route) (f : Nat) :
+    ((staleAll fs rib).filter (fun r => r.fam == f)).length = (rib.filter (fun r => r.fam == f)).length ∧
+    ((staleAll fs rib).filter (fun r => r.fam == f && !r.rej)).length =
+      (rib.filter (fun r => r.fam == f && !r.rej)).length := by
+  have key : ∀ q : Route → Bool,
+      (∀ r : Route, q (if fs.contains r.fam = true then { r with stale := true } else r) = q r) →
+      ((staleAll fs rib).filter q).length = (rib.filter q).length := by
+    intro q hq
+    have hfun : (q ∘ fun r : Route => if fs.contains r.fam = true then { r with stale := true } else r) = q :=
+      funext hq
+    simp only [staleAll, List.filter_map, List.length_map, hfun]
+  constructor
+  · apply key; intro r; split <;> rfl
+  · apply key; intro r; split <;> rfl
+
+/-- the accepted count never exceeds the received count -/
+theorem accepted_le_received (p : Peer) (f : Nat) : accepted p f ≤ received p f := by
+  unfold accepted received
+  induction p.rib with
+  | nil => simp
+  | cons r t ih =>
+    simp only [List.filter_cons]
+    by_cases h1 : (r.fam == f) = true <;> by_cases h2 : r.rej = true <;> simp [h1, h2] <;> omega
+
 /-- non-vacuity: a neighbour with two families; GR (restart time 20) and LLGR (25 s for family 0)
 negotiated; two routes; transport failure; 10 s later both routes are held stale under the restart
 timer; 15 s later (restart timer expired) the LLGR family's route is LLGR-stale under its timer. -/
@@ -582,17 +620,17 @@ def exCaps : Caps :=
   { gr := true, nbit := false, rbit := false, time := 20, tuples := [0, 1], llgr := true, ltuples := [(0, 25)], mp := [0, 1] }
 
 def exHistory : List Ev :=
-  [.est exCaps, .ann 0 1 1 false 0, .ann 1 1 1 false 0, .eor 0, .eor 1, .loss .readFail, .tick 10]
+  [.est exCaps, .ann 0 1 1 false 0 false, .ann 1 1 1 false 0 false, .eor 0, .eor 1, .loss .readFail, .tick 10]
 
 example : Init exPeer := ⟨rfl, rfl, rfl, rfl, rfl, by decide⟩
 theorem exHistory_ok : ∀ e ∈ exHistory, EvOK e := by
   intro e he
   simp only [exHistory, List.mem_cons, List.mem_nil_iff, or_false] at he
   rcases he with rfl | rfl | rfl | rfl | rfl | rfl | rfl <;> simp [EvOK]
-example : (run exPeer exHistory).rib = [⟨0, 1, 1, true, 0, false⟩, ⟨1, 1, 1, true, 0, false⟩] ∧
+example : (run exPeer exHistory).rib = [⟨0, 1, 1, true, 0, false, false⟩, ⟨1, 1, 1, true, 0, false, false⟩] ∧
     (run exPeer exHistory).restartAt = some 20 ∧ (run exPeer exHistory).now = 10 ∧
     (run exPeer exHistory).peerRestarting = true := by decide
-example : (run exPeer (exHistory ++ [.tick 15])).rib = [⟨0, 1, 1, true, 1, false⟩] ∧
+example : (run exPeer (exHistory ++ [.tick 15])).rib = [⟨0, 1, 1, true, 1, false, false⟩] ∧
     (run exPeer (exHistory ++ [.tick 15])).llTimers = [(0, 45)] ∧
     (run exPeer (exHistory ++ [.tick 15])).now = 25 := by decide
 example : (run exPeer (exHistory ++ [.tick 15, .tick 20])).rib = [] ∧
